@@ -10,7 +10,7 @@ import (
 func init() {
 	register(&Property{
 		ID:          "C11",
-		Explanation: "Decides the structural clause of the user state machine threading contract: at every call site that enters the user state machine (through rsm.IStateMachine), in every calling context of the non-test program, the state-machine lock is held in the required mode (Update/BatchedUpdate/Sync/Open/Recover exclusive; Prepare/GetHash/plain Lookup/plain Save at least shared) or the context is one of the documented lock-free paths (concurrent lookup, concurrent save, stream) which are reachable only behind the Concurrent()/on-disk test; the user Close is called with the same lock under which Lookup tests the destroyed flag, only from the close worker, only after the managed state machine is fully offloaded; the Update family is reachable only from the apply entry; snapshot jobs are excluded from concurrent apply by the scheduling guards. Does not decide strictly increasing indexes or exactly-once delivery at run time.",
+		Explanation: "Decides the structural clause of the user state machine threading contract: at every call site that enters the user state machine (through rsm.IStateMachine), in every calling context of the non-test program, the state-machine lock is held in the required mode (Update/BatchedUpdate/Sync/Open/Recover exclusive; Prepare/GetHash/plain Lookup/plain Save at least shared) or the context is one of the documented lock-free paths (concurrent lookup, concurrent save, stream) which are reachable only behind the Concurrent()/on-disk test; the user Close is called with the same lock under which Lookup tests the destroyed flag, only from the close worker, only after the managed state machine is fully offloaded; the Update family is reachable only from the apply entry; snapshot jobs are excluded from concurrent apply by the scheduling guards. Does not decide strictly increasing indexes or exactly-once delivery at run time. node.destroy runs behind the destroyed test of the executing worker; a replica is created only when no incarnation is registered or still loaded.",
 		NotCovered:  "exactly-once, in-order delivery of the Update stream at run time (asserted by the code's own panics); lock instance identity (locks are abstracted to their field)",
 		Run:         runC11,
 	})
